@@ -343,6 +343,12 @@ def standard_main(pid, run):
     except subprocess.TimeoutExpired as e:
         print("HARNESS-TIMEOUT %s: %s" % (pid, e))
         sys.exit(2)
+    except SystemExit:
+        raise
+    except BaseException as e:  # noqa
+        print("HARNESS-ERROR %s: unexpected %r" % (pid, e))
+        traceback.print_exc()
+        sys.exit(2)
     sys.exit(res.finish())
 
 
